@@ -55,6 +55,9 @@ class Prop(BaseProp):
         end = text.index("#]]\n") + 4
         blk = "".join(ind + l + "\n" for l in text[:end].split("\n")[:-1])
         pre = rng.choice(["", "", "# leading comment\n", "\n\n", "#[[ bracket ]]\n", "  \n#[=[ x ]=]\n"])
+        gap = rng.choice([" ", " ", "  ", "\t", "    ", " \t ", ""])
+        blk = blk.replace("#[[[ @module", "#[[[" + gap + "@module", 1)
+        res.see("module_tag_gap", repr(gap))
         text = pre + blk + text[end:]
         res.see("module_doc_shapes", f"{kind}:body{min(nbody, 1)}:ind{len(ind)}:pre{int(bool(pre))}")
         return text, {"name": name, "doc": mod.module_doc, "first_item_doc": mod.items[0].doc if mod.items else None}
